@@ -18,10 +18,18 @@
 //	closeproxy <n>            worker: close one proxy (Go's map order chooses)           => p:<k>
 //	done <n>                  worker: close(doneCh)                                      => ok
 //	del <n>                   ctlManager.Del                                             => ok
-//	regexist <n> <p> <typ>    NewProxy up to pxyManager.Exist                            => checked | exists | connclosed
+//	name <p> <hx>             from now on name index p stands for this raw proxy name (default "p<k>"; pairwise
+//	                          different raw names only)                                  => ok | dup
+//	regexist <n> <p> <typ>    NewProxy (tcp | stcp | sudp | xtcp) up to pxyManager.Exist  => checked | exists | connclosed
 //	regrun <n> / regadd <n> / regown <n>                                                 => ran|runerr / added|refused / ok
 //	closereq <n> <p>          CloseProxy up to pxyManager.Del                            => deleted | noop | connclosed
 //	closefin <n>                                                                         => ok
+//	vprobe <p> <w>            a visitor connects to name p (Service.RegisterVisitorConn, right key)
+//	                          => nolistener | listener | req:<n>  (n = the session whose client was asked for a work
+//	                          connection; waited for only if w != 0 and session w can be asked at all)
+//	nprobe <p>                nat hole pre-check for name p, sent by an unrelated, ungated session => client | noclient
+//	tprobe <n> <p>            a user connects to the remote port session n got for its tcp proxy p
+//	                          => noport | refused | accepted | req:<m>
 //	randid                    fact check of util.RandID (one call)                       => ok | …
 //	randconc <g> <k>          g goroutines × k calls of the real util.RandID, interleaved with runtime.Gosched
 //	                          => ids:<id,…> (g·k ≤ 4096: all ids, Lean decides) | sum:n=<g·k>;bad=<malformed ids>;dup=<repeated ids>
@@ -32,7 +40,8 @@
 //	                             other=<run ids that were also handed out to a background caller>;bgdup=<repeated background ids>;bg=<n>
 //
 // a fresh `login` answers fresh:<the generated id>; every result (except reset/randid/randconc) is followed by
-// "|run[rid=n,…]names[p=n,…]" (the real tables); an op whose goroutine is not where the op needs it answers "disabled".
+// "|run[rid=n,…]names[p=n,…]own[n:p,…]vis[p,…]nat[p,…]" (the real tables: ctlsByRunID, pxys, ctl.proxies of the
+// designated sessions, visitor.Manager.listeners, nathole.Controller.clientCfgs); an op whose goroutine is not where the op needs it answers "disabled".
 //
 // Every wait is event driven and bounded by sessTimeout (2 s; halved by every expiry in the process, down to 125 ms).  An
 // expired wait answers timeout / blocked / …|dumpblocked and WEDGES the world: every further op up to the next
@@ -54,13 +63,14 @@ import (
 	"sync"
 	"time"
 
-	v1 "github.com/fatedier/frp/pkg/config/v1"
 	"github.com/fatedier/frp/pkg/config/types"
+	v1 "github.com/fatedier/frp/pkg/config/v1"
 	"github.com/fatedier/frp/pkg/msg"
 	"github.com/fatedier/frp/pkg/util/util"
 	"github.com/fatedier/frp/pkg/util/verifhook"
 	"github.com/fatedier/frp/pkg/util/version"
 	"github.com/fatedier/frp/server"
+	"github.com/fatedier/frp/server/controller"
 )
 
 var (
@@ -101,6 +111,9 @@ type sessClient struct {
 	old          int
 	earlyRel     bool
 	passedWait   bool
+	regName      int            // name index of the NewProxy the handler is working on
+	regTyp       string         // … and its type
+	ports        map[int]string // name index -> remote address of the registered tcp proxy
 }
 
 type sessWorld struct {
@@ -117,6 +130,35 @@ type sessWorld struct {
 
 	burstSeq int
 	burstDel int // ctl.afterDel events of sessions of the current burst
+
+	rc      *controller.ResourceController // the Service's own resource controller (read-only dumps)
+	raw     map[int]string                 // name index -> raw proxy name
+	rawIdx  map[string]int                 // raw proxy name -> index
+	prober  *sessClient                    // an ungated session that sends nat hole pre-checks
+	probeTx int
+}
+
+const sessProbeHost = "prober"
+
+// the raw proxy name index k stands for
+func (w *sessWorld) rawName(k int) string {
+	if s, ok := w.raw[k]; ok {
+		return s
+	}
+	return "p" + strconv.Itoa(k)
+}
+
+// name index of a raw name found in a table of the implementation; 9999 = a name no client ever sent
+func (w *sessWorld) nameIdx(raw string) int {
+	if k, ok := w.rawIdx[raw]; ok && w.rawName(k) == raw {
+		return k
+	}
+	for k := 0; k < 16; k++ {
+		if w.rawName(k) == raw {
+			return k
+		}
+	}
+	return 9999
 }
 
 var sessW *sessWorld
@@ -335,7 +377,7 @@ func sessReset() {
 	sessClose()
 	sessGeneration++
 	w := &sessWorld{gen: sessGeneration, ev: make(chan struct{}, 1), parked: map[string]*sessGor{}, clients: map[int]*sessClient{},
-		ridNum: map[string]int{}}
+		ridNum: map[string]int{}, raw: map[int]string{}, rawIdx: map[string]int{}}
 	var lastErr error
 	for attempt := 0; attempt < 5; attempt++ {
 		cfg := &v1.ServerConfig{}
@@ -355,6 +397,7 @@ func sessReset() {
 		}
 		ctx, cancel := context.WithCancel(context.Background())
 		w.svr, w.cancel = svr, cancel
+		w.rc = portsSvcField[controller.ResourceController](svr, "rc")
 		go svr.Run(ctx)
 		sessW = w
 		verifhook.Set(w.gate)
@@ -424,16 +467,85 @@ func (w *sessWorld) dump() (string, bool) {
 	if !ok {
 		return "", false
 	}
+	// own tables of the designated sessions, rendez-vous tables (every goroutine of the world is parked or idle).
+	// VerifAuthSessions takes the mutex of every designated session: a session parked inside its teardown loop or
+	// inside CloseProxy holds it — then the own tables are not read ("?")
+	ownReadable := true
+	w.mu.Lock()
+	for _, h := range byRun {
+		if k, _, ok := sessParseHost(h); ok {
+			if w.at(k, "worker", "worker.drained", "worker.proxy", "worker.beforeDone")() || w.at(k, "handler", "close.deleted")() {
+				ownReadable = false
+			}
+		}
+	}
+	w.mu.Unlock()
+	type own struct {
+		sessions []server.VerifAuthSession
+		vis, nat []string
+	}
+	och := make(chan own, 1)
+	go func() {
+		o := own{vis: w.rc.VisitorManager.VerifNames()}
+		if ownReadable {
+			o.sessions = w.svr.VerifAuthSessions()
+		}
+		if w.rc.NatHoleController != nil {
+			o.nat = w.rc.NatHoleController.VerifClients()
+		}
+		och <- o
+	}()
+	var o own
+	tm := time.NewTimer(sessTimeout)
+	defer tm.Stop()
+	select {
+	case o = <-och:
+	case <-tm.C:
+		return "", false
+	}
 	w.mu.Lock()
 	defer w.mu.Unlock()
 	type kv struct{ k, v int }
 	rs := []kv{}
 	for id, h := range byRun {
+		if h == sessProbeHost {
+			continue
+		}
 		rs = append(rs, kv{w.ridNumber(id), sessHostNum(h)})
 	}
 	ns := []kv{}
 	for p, h := range names {
-		ns = append(ns, kv{sessNameNum(p), sessHostNum(h)})
+		ns = append(ns, kv{w.nameIdx(p), sessHostNum(h)})
+	}
+	os := []kv{}
+	for _, s := range o.sessions {
+		h, ok := byRun[s.RunID]
+		if !ok || h == sessProbeHost {
+			continue
+		}
+		for _, p := range s.Proxies {
+			os = append(os, kv{sessHostNum(h), w.nameIdx(p)})
+		}
+	}
+	g := func(xs []string) string {
+		ks := []int{}
+		for _, x := range xs {
+			ks = append(ks, w.nameIdx(x))
+		}
+		sort.Ints(ks)
+		out := []string{}
+		for _, k := range ks {
+			out = append(out, strconv.Itoa(k))
+		}
+		return strings.Join(out, ",")
+	}
+	pairs := func(xs []kv) string {
+		sort.Slice(xs, func(i, j int) bool { return xs[i].k < xs[j].k || xs[i].k == xs[j].k && xs[i].v < xs[j].v })
+		out := []string{}
+		for _, x := range xs {
+			out = append(out, strconv.Itoa(x.k)+":"+strconv.Itoa(x.v))
+		}
+		return strings.Join(out, ",")
 	}
 	f := func(xs []kv) string {
 		sort.Slice(xs, func(i, j int) bool { return xs[i].k < xs[j].k || xs[i].k == xs[j].k && xs[i].v < xs[j].v })
@@ -443,7 +555,11 @@ func (w *sessWorld) dump() (string, bool) {
 		}
 		return strings.Join(out, ",")
 	}
-	return "run[" + f(rs) + "]names[" + f(ns) + "]", true
+	ownStr := "?"
+	if ownReadable {
+		ownStr = pairs(os)
+	}
+	return "run[" + f(rs) + "]names[" + f(ns) + "]own[" + ownStr + "]vis[" + g(o.vis) + "]nat[" + g(o.nat) + "]", true
 }
 
 func (w *sessWorld) reader(c *sessClient) {
@@ -750,6 +866,187 @@ func (w *sessWorld) burst(m, bg int) string {
 	return fmt.Sprintf("ids:%s;own=%d;other=%d;bgdup=%d;bg=%d", strings.Join(ids, ","), own, other, bgdup, nbg)
 }
 
+const sessSk = "k"
+
+// a message for a client that can still be asked for a work connection has arrived: which client
+func (w *sessWorld) reqAt(out *int) func() bool {
+	return func() bool {
+		ks := []int{}
+		for k := range w.clients {
+			ks = append(ks, k)
+		}
+		sort.Ints(ks)
+		for _, k := range ks {
+			c := w.clients[k]
+			for i, m := range c.msgs {
+				if _, ok := m.(*msg.ReqWorkConn); ok {
+					c.msgs = append(c.msgs[:i], c.msgs[i+1:]...)
+					*out = k
+					return true
+				}
+			}
+		}
+		return false
+	}
+}
+
+// session k is acknowledged, its connection is open and its dispatcher has not ended
+func (w *sessWorld) canServe(k int) bool {
+	w.mu.Lock()
+	defer w.mu.Unlock()
+	c := w.clients[k]
+	return c != nil && c.started && !c.clientClosed && !c.replaced && !c.dispSeen && !c.readerEOF
+}
+
+// a visitor connects to name p through the real Service: is there a listener, and who is asked for the work connection
+func (w *sessWorld) vprobe(p, hint int) string {
+	w.mu.Lock()
+	name := w.rawName(p)
+	w.mu.Unlock()
+	c1, c2 := net.Pipe()
+	defer c2.Close()
+	ts := time.Now().Unix()
+	// the connection is handed to the listener (and somebody is asked for a work connection) only if this op
+	// waits for that request; otherwise the visitor presents a wrong key: "auth failed" = the listener is there
+	ask := hint != 0 && w.canServe(hint)
+	key := util.GetAuthKey(sessSk, ts)
+	if !ask {
+		key = util.GetAuthKey(sessSk+"-wrong", ts)
+	}
+	w.dropReqs()
+	type r struct{ err error }
+	ch := make(chan r, 1)
+	go func() {
+		ch <- r{w.svr.RegisterVisitorConn(c1, &msg.NewVisitorConn{ProxyName: name, Timestamp: ts, SignKey: key})}
+	}()
+	var res r
+	select {
+	case res = <-ch:
+	case <-time.After(sessTimeout):
+		c1.Close()
+		return w.timeout()
+	}
+	if res.err != nil {
+		c1.Close()
+		switch {
+		case strings.Contains(res.err.Error(), "doesn't exist"):
+			return "nolistener"
+		case !ask && strings.Contains(res.err.Error(), "auth failed"):
+			return "listener"
+		}
+		return "err:" + hx(res.err.Error())
+	}
+	who := -1
+	if w.waitAny(sessTimeout, w.reqAt(&who)) < 0 {
+		// nobody was asked within the bound (the holder cannot be asked, or a stale hint of a shrunk sequence)
+		return "listener:noreq"
+	}
+	return "req:" + strconv.Itoa(who)
+}
+
+// forget work connection requests of earlier ops
+func (w *sessWorld) dropReqs() {
+	w.mu.Lock()
+	defer w.mu.Unlock()
+	for _, c := range w.clients {
+		keep := c.msgs[:0]
+		for _, m := range c.msgs {
+			if _, ok := m.(*msg.ReqWorkConn); !ok {
+				keep = append(keep, m)
+			}
+		}
+		c.msgs = keep
+	}
+}
+
+// the ungated session that sends nat hole pre-checks (logged in on first use)
+func (w *sessWorld) proberClient() *sessClient {
+	if w.prober != nil {
+		return w.prober
+	}
+	c1, c2 := net.Pipe()
+	c := &sessClient{n: -1, conn: c2}
+	if err := w.svr.VerifAuthInternalListener().PutConn(c1); err != nil {
+		return nil
+	}
+	lm := &msg.Login{Version: version.Full(), Hostname: sessProbeHost, Os: "linux", Arch: "amd64",
+		ClientSpec: msg.ClientSpec{AlwaysAuthPass: true}}
+	if err := w.send(c, lm); err != nil {
+		return nil
+	}
+	go w.reader(c)
+	var m msg.Message
+	if w.waitAny(sessTimeout, w.got(c, func(m msg.Message) bool { _, ok := m.(*msg.LoginResp); return ok }, &m)) < 0 {
+		return nil
+	}
+	w.prober = c
+	return c
+}
+
+// NatHoleVisitor{PreCheck} for name p: is there a nat hole client entry
+func (w *sessWorld) nprobe(p int) string {
+	c := w.proberClient()
+	if c == nil {
+		return w.timeout()
+	}
+	w.mu.Lock()
+	name := w.rawName(p)
+	w.probeTx++
+	tx := "t" + strconv.Itoa(w.probeTx)
+	w.mu.Unlock()
+	ts := time.Now().Unix()
+	if err := w.send(c, &msg.NatHoleVisitor{TransactionID: tx, ProxyName: name, PreCheck: true, Timestamp: ts,
+		SignKey: util.GetAuthKey(sessSk, ts)}); err != nil {
+		return "writeerr"
+	}
+	var m msg.Message
+	if w.waitAny(sessTimeout, w.got(c, func(m msg.Message) bool {
+		r, ok := m.(*msg.NatHoleResp)
+		return ok && r.TransactionID == tx
+	}, &m)) < 0 {
+		return w.timeout()
+	}
+	e := m.(*msg.NatHoleResp).Error
+	switch {
+	case e == "":
+		return "client"
+	case strings.Contains(e, "doesn't exist"):
+		return "noclient"
+	}
+	return "err:" + hx(e)
+}
+
+// a user connects to the remote port of session n's tcp proxy p
+func (w *sessWorld) tprobe(n, p int) string {
+	w.mu.Lock()
+	c := w.clients[n]
+	addr := ""
+	if c != nil {
+		addr = c.ports[p]
+	}
+	w.mu.Unlock()
+	if addr == "" {
+		return "noport"
+	}
+	if strings.HasPrefix(addr, ":") {
+		addr = "127.0.0.1" + addr
+	}
+	if !w.canServe(n) {
+		return "notasked"
+	}
+	w.dropReqs()
+	conn, err := net.DialTimeout("tcp", addr, sessTimeout)
+	if err != nil {
+		return "refused"
+	}
+	defer conn.Close()
+	who := -1
+	if w.waitAny(sessTimeout, w.reqAt(&who)) < 0 {
+		return "accepted:noreq"
+	}
+	return "req:" + strconv.Itoa(who)
+}
+
 // the handler of session n has returned: a reply arrived, or (closed connection) the worker reached its first gate
 func (w *sessWorld) handlerEnd(c *sessClient, reply func(msg.Message) bool, out *msg.Message) []func() bool {
 	return []func() bool{w.got(c, reply, out), w.at(c.n, "worker", "worker.dispDone")}
@@ -764,6 +1061,35 @@ func sessOp(w *sessWorld, tok []string) string {
 			return "badop"
 		}
 		return w.burst(atoi(tok[1]), atoi(tok[2]))
+	}
+	switch tok[0] {
+	case "name":
+		if len(tok) < 3 {
+			return "badop"
+		}
+		k, raw := atoi(tok[1]), unhx(tok[2])
+		w.mu.Lock()
+		defer w.mu.Unlock()
+		for j := 0; j < 16; j++ {
+			if j != k && w.rawName(j) == raw {
+				return "dup"
+			}
+		}
+		w.raw[k] = raw
+		w.rawIdx[raw] = k
+		return "ok"
+	case "vprobe":
+		if len(tok) < 3 {
+			return "badop"
+		}
+		return w.vprobe(atoi(tok[1]), atoi(tok[2]))
+	case "nprobe":
+		return w.nprobe(atoi(tok[1]))
+	case "tprobe":
+		if len(tok) < 3 {
+			return "badop"
+		}
+		return w.tprobe(atoi(tok[1]), atoi(tok[2]))
 	}
 	n := atoi(tok[1])
 	w.mu.Lock()
@@ -790,7 +1116,7 @@ func sessOp(w *sessWorld, tok []string) string {
 			rid = w.ridString(r)
 		}
 		c1, c2 := net.Pipe()
-		c = &sessClient{n: n, conn: c2, old: -1, fresh: fresh}
+		c = &sessClient{n: n, conn: c2, old: -1, fresh: fresh, ports: map[int]string{}}
 		w.mu.Lock()
 		w.clients[n] = c
 		w.mu.Unlock()
@@ -941,7 +1267,9 @@ func sessOp(w *sessWorld, tok []string) string {
 		if w.waitAny(sessTimeout, w.at(n, "worker", "worker.proxy", "worker.beforeDone")) < 0 {
 			return w.timeout()
 		}
-		return "p:" + strconv.Itoa(sessNameNum(p))
+		w.mu.Lock()
+		defer w.mu.Unlock()
+		return "p:" + strconv.Itoa(w.nameIdx(p))
 	case "done":
 		if !w.isAt(n, "worker", "worker.beforeDone") {
 			return "disabled"
@@ -969,11 +1297,14 @@ func sessOp(w *sessWorld, tok []string) string {
 		if c.clientClosed || c.replaced {
 			return "connclosed"
 		}
-		name := "p" + tok[2]
+		w.mu.Lock()
+		name := w.rawName(atoi(tok[2]))
+		w.mu.Unlock()
 		nm := &msg.NewProxy{ProxyName: name, ProxyType: tok[3]}
-		if tok[3] == "stcp" {
-			nm.Sk = "k"
+		if tok[3] == "stcp" || tok[3] == "sudp" || tok[3] == "xtcp" {
+			nm.Sk = sessSk
 		}
+		c.regName, c.regTyp = atoi(tok[2]), tok[3]
 		if err := w.send(c, nm); err != nil {
 			return "writeerr"
 		}
@@ -1012,6 +1343,9 @@ func sessOp(w *sessWorld, tok []string) string {
 				if e != "" {
 					return "err:" + hx(e)
 				}
+				if c.regTyp == "tcp" {
+					c.ports[c.regName] = m.(*msg.NewProxyResp).RemoteAddr
+				}
 				return "ok"
 			}
 			if tok[0] == "regadd" && !strings.Contains(e, "already in use") {
@@ -1030,7 +1364,10 @@ func sessOp(w *sessWorld, tok []string) string {
 		if c.clientClosed || c.replaced {
 			return "connclosed"
 		}
-		if err := w.send(c, &msg.CloseProxy{ProxyName: "p" + tok[2]}); err != nil {
+		w.mu.Lock()
+		cname := w.rawName(atoi(tok[2]))
+		w.mu.Unlock()
+		if err := w.send(c, &msg.CloseProxy{ProxyName: cname}); err != nil {
 			return "writeerr"
 		}
 		go func() { _ = msg.WriteMsg(c.conn, &msg.Ping{}) }()
@@ -1068,7 +1405,9 @@ type sessSim struct {
 	old      int
 	hp       string // "", checked, ran, added, closing
 	hpArg    int
+	hpTyp    string
 	own      map[int]bool
+	ownTyp   map[int]string
 	todo     map[int]bool
 	deleted  bool
 	closed   bool
@@ -1076,14 +1415,61 @@ type sessSim struct {
 }
 
 type sessGenState struct {
-	rng   *rand.Rand
-	emit  func(string)
-	n     int
-	s     map[int]*sessSim
-	byRun map[int]int
-	names map[int]int
-	next  int
-	burst bool // a freshburst was emitted in this world
+	rng       *rand.Rand
+	emit      func(string)
+	n         int
+	s         map[int]*sessSim
+	byRun     map[int]int
+	names     map[int]int
+	next      int
+	burst     bool        // a freshburst was emitted in this world
+	vis       map[int]int // visitor listeners (stcp, sudp): name -> holder
+	nat       map[int]int // nat hole client entries (xtcp): name -> holder
+	forceName int         // name race: every NewProxy uses this name …
+	forceTyps []string    // … and one of these types
+	fuzzy     bool        // Go's map order has chosen among several proxies of a teardown: the simulation's tables are approximate
+	after     []string    // ops to emit right after the chosen one (probes of the name a registration was refused for)
+}
+
+// which rendez-vous table a proxy type uses
+func (g *sessGenState) rdv(typ string) map[int]int {
+	switch typ {
+	case "stcp", "sudp":
+		return g.vis
+	case "xtcp":
+		return g.nat
+	}
+	return nil
+}
+
+// pxy.Close() of session k's proxy p of the given type: the entry goes, by name
+func (g *sessGenState) release(k, p int, typ string) {
+	if t := g.rdv(typ); t != nil {
+		delete(t, p)
+	}
+}
+
+// probes of name p: the rendez-vous entries under it and the tcp proxy registered under it
+func (g *sessGenState) probes(p int) []string {
+	out := []string{}
+	if h, ok := g.vis[p]; ok {
+		hint := 0
+		if x := g.s[h]; !g.fuzzy && x != nil && x.phase == "running" && !x.closed {
+			hint = h
+		}
+		out = append(out, fmt.Sprintf("vprobe %d %d", p, hint))
+	} else if g.rng.Intn(3) == 0 {
+		out = append(out, fmt.Sprintf("vprobe %d 0", p))
+	}
+	if _, ok := g.nat[p]; ok || g.rng.Intn(4) == 0 {
+		out = append(out, fmt.Sprintf("nprobe %d", p))
+	}
+	if h, ok := g.names[p]; ok {
+		if x := g.s[h]; x != nil && x.own[p] && x.ownTyp[p] == "tcp" && x.phase == "running" && !x.closed && !g.fuzzy {
+			out = append(out, fmt.Sprintf("tprobe %d %d", h, p))
+		}
+	}
+	return out
 }
 
 func (g *sessGenState) op(format string, a ...any) {
@@ -1093,7 +1479,69 @@ func (g *sessGenState) op(format string, a ...any) {
 
 func (g *sessGenState) reset() {
 	g.s, g.byRun, g.names, g.next, g.burst = map[int]*sessSim{}, map[int]int{}, map[int]int{}, 0, false
+	g.vis, g.nat, g.fuzzy, g.after = map[int]int{}, map[int]int{}, false, nil
+	g.forceName, g.forceTyps = 0, nil
 	g.op("reset")
+}
+
+// blanks a careless normalisation would trim or fold
+var sessBlanks = []string{" ", "  ", "\t", "\n", "\r\n", "\u00a0", "\u3000", "\u2003", "\u200b", "\ufeff"}
+var sessBases = []string{"web", "ssh", "Db", "api-1", "a", "x.y", "user.web", "wéb", "日本語", "веб", "naïve", "😀", "web/1", "%20", "p1", "p2"}
+
+// one proxy name as a client may send it: a base, padded / split by blanks, in another case, very long, empty
+func sessGenName(rng *rand.Rand, base string) string {
+	n := base
+	switch rng.Intn(12) {
+	case 0:
+		return n
+	case 1:
+		return n + pick(rng, sessBlanks)
+	case 2:
+		return pick(rng, sessBlanks) + n
+	case 3:
+		return pick(rng, sessBlanks) + n + pick(rng, sessBlanks)
+	case 4:
+		r := []rune(n)
+		i := rng.Intn(len(r) + 1)
+		return string(r[:i]) + pick(rng, sessBlanks) + string(r[i:])
+	case 5:
+		return strings.ToUpper(n)
+	case 6:
+		return strings.ToLower(n)
+	case 7:
+		return strings.Title(n) //nolint
+	case 8:
+		return strings.Repeat(n, 1+rng.Intn(3)) + strings.Repeat("a", []int{60, 255, 256, 1000, 3000}[rng.Intn(5)])
+	case 9:
+		return pick(rng, []string{"", " ", "  ", "\t"})
+	case 10:
+		return n + "." + n
+	}
+	return n + strconv.Itoa(rng.Intn(3))
+}
+
+// the names of a world: variants of one or two bases, so that names differing only by blanks / case meet
+func (g *sessGenState) nameWorld() {
+	if g.rng.Intn(4) == 0 {
+		return // the default names p1..p4
+	}
+	b1, b2 := pick(g.rng, sessBases), pick(g.rng, sessBases)
+	seen := map[string]bool{}
+	for k := 1; k <= 4; k++ {
+		base := b1
+		if k == 4 && g.rng.Intn(2) == 0 {
+			base = b2
+		}
+		nm := sessGenName(g.rng, base)
+		if k == 1 && g.rng.Intn(2) == 0 {
+			nm = base
+		}
+		if seen[nm] {
+			continue
+		}
+		seen[nm] = true
+		g.op("name %d %s", k, hx(nm))
+	}
 }
 
 func (g *sessGenState) ids() []int {
@@ -1124,7 +1572,7 @@ func (g *sessGenState) candidates() []sessCand {
 		// fresh login
 		add(3, fmt.Sprintf("login %d %d 1", n, 1000+n), func() {
 			g.next = n
-			g.s[n] = &sessSim{phase: "created", rid: 1000 + n, old: -1, own: map[int]bool{}, todo: map[int]bool{}}
+			g.s[n] = &sessSim{phase: "created", rid: 1000 + n, old: -1, own: map[int]bool{}, todo: map[int]bool{}, ownTyp: map[int]string{}}
 		})
 		// re-login with an id in use (explicit or one a started fresh session was given)
 		rids := []int{1, 1, 2}
@@ -1139,7 +1587,7 @@ func (g *sessGenState) candidates() []sessCand {
 		r := rids[g.rng.Intn(len(rids))]
 		add(6, fmt.Sprintf("login %d %d 0", n, r), func() {
 			g.next = n
-			g.s[n] = &sessSim{phase: "created", rid: r, old: -1, own: map[int]bool{}, todo: map[int]bool{}}
+			g.s[n] = &sessSim{phase: "created", rid: r, old: -1, own: map[int]bool{}, todo: map[int]bool{}, ownTyp: map[int]string{}}
 		})
 	}
 	for _, k := range g.ids() {
@@ -1192,13 +1640,16 @@ func (g *sessGenState) candidates() []sessCand {
 					add(8, fmt.Sprintf("dispdone %d", k), func() { x.phase = "dispDone" })
 				} else {
 					p := 1 + g.rng.Intn(4)
-					typ := "tcp"
-					if g.rng.Intn(4) == 0 {
-						typ = "stcp"
+					typ := pick(g.rng, []string{"tcp", "tcp", "tcp", "tcp", "stcp", "stcp", "stcp", "sudp", "xtcp", "xtcp"})
+					if g.forceName != 0 {
+						p, typ = g.forceName, pick(g.rng, g.forceTyps)
 					}
 					add(7, fmt.Sprintf("regexist %d %d %s", k, p, typ), func() {
 						if _, ok := g.names[p]; !ok {
-							x.hp, x.hpArg = "checked", p
+							x.hp, x.hpArg, x.hpTyp = "checked", p, typ
+						} else {
+							// refused at the Exist check: the incumbent keeps working
+							g.after = g.probes(p)
 						}
 					})
 					q := 1 + g.rng.Intn(4)
@@ -1213,26 +1664,60 @@ func (g *sessGenState) candidates() []sessCand {
 					add(4, fmt.Sprintf("closereq %d %d", k, q), func() {
 						if x.own[q] {
 							delete(g.names, q)
+							g.release(k, q, x.ownTyp[q])
 							x.hp, x.hpArg = "closing", q
+						} else if g.rng.Intn(2) == 0 {
+							// a close request for a name of somebody else (or nobody): nothing of the others changes
+							g.after = g.probes(q)
 						}
 					})
+					if g.rng.Intn(3) == 0 || g.forceName != 0 {
+						pp := 1 + g.rng.Intn(4)
+						if g.forceName != 0 {
+							pp = g.forceName
+						}
+						for _, pr := range g.probes(pp) {
+							add(1, pr, func() {})
+						}
+					}
 				}
 			} else {
 				switch x.hp {
 				case "checked":
-					// the outcome of pxy.Run is the implementation's; the simulation assumes success
-					add(8, fmt.Sprintf("regrun %d", k), func() { x.hp = "ran" })
+					// the outcome of pxy.Run of a tcp proxy is the implementation's (the simulation assumes success);
+					// a rendez-vous proxy runs iff its table has no entry under the name
+					add(8, fmt.Sprintf("regrun %d", k), func() {
+						if t := g.rdv(x.hpTyp); t != nil {
+							if _, ok := t[x.hpArg]; ok {
+								// Run refused: the incumbent's entry must be exactly as it was
+								x.hp = ""
+								g.after = g.probes(x.hpArg)
+								return
+							}
+							t[x.hpArg] = k
+						}
+						x.hp = "ran"
+					})
 				case "ran":
 					add(8, fmt.Sprintf("regadd %d", k), func() {
 						if _, ok := g.names[x.hpArg]; ok {
+							// Add refused: the new proxy is closed again, the incumbent keeps working
 							x.hp = ""
+							g.release(k, x.hpArg, x.hpTyp)
+							g.after = g.probes(x.hpArg)
 						} else {
 							g.names[x.hpArg] = k
 							x.hp = "added"
 						}
 					})
 				case "added":
-					add(8, fmt.Sprintf("regown %d", k), func() { x.own[x.hpArg] = true; x.hp = "" })
+					add(8, fmt.Sprintf("regown %d", k), func() {
+						x.own[x.hpArg], x.ownTyp[x.hpArg] = true, x.hpTyp
+						x.hp = ""
+						if g.rng.Intn(3) == 0 {
+							g.after = g.probes(x.hpArg)
+						}
+					})
 				case "closing":
 					add(8, fmt.Sprintf("closefin %d", k), func() { delete(x.own, x.hpArg); x.hp = "" })
 				}
@@ -1258,10 +1743,14 @@ func (g *sessGenState) candidates() []sessCand {
 					}
 					sort.Ints(ks)
 					p := ks[0]
+					if len(ks) > 1 {
+						g.fuzzy = true
+					}
 					delete(x.todo, p)
 					if g.names[p] == k {
 						delete(g.names, p)
 					}
+					g.release(k, p, x.ownTyp[p])
 				})
 			} else {
 				add(8, fmt.Sprintf("done %d", k), func() { x.phase = "done" })
@@ -1304,22 +1793,95 @@ func (g *sessGenState) walk(steps int, wild int) {
 			// a blind op may have been enabled: the simulation is no longer exact; end the scenario
 			return
 		}
-		cs := g.candidates()
-		if len(cs) == 0 {
+		if !g.step(nil) {
 			return
 		}
-		tot := 0
-		for _, c := range cs {
-			tot += c.w
+	}
+}
+
+// one enabled op (of those the filter lets through), chosen by weight; false = none
+func (g *sessGenState) step(filter func(op string) bool) bool {
+	cs := []sessCand{}
+	for _, c := range g.candidates() {
+		if filter == nil || filter(c.op) {
+			cs = append(cs, c)
 		}
-		r := g.rng.Intn(tot)
-		for _, c := range cs {
-			if r < c.w {
-				g.op("%s", c.op)
-				c.do()
+	}
+	if len(cs) == 0 {
+		return false
+	}
+	tot := 0
+	for _, c := range cs {
+		tot += c.w
+	}
+	r := g.rng.Intn(tot)
+	for _, c := range cs {
+		if r < c.w {
+			g.op("%s", c.op)
+			c.do()
+			break
+		}
+		r -= c.w
+	}
+	for _, a := range g.after {
+		g.op("%s", a)
+	}
+	g.after = nil
+	return true
+}
+
+// name race: 2..4 running sessions send a NewProxy for ONE name, all of them pass the Exist check before any of them
+// runs; then their Run / Add / own-table steps interleave at random, probes of the name in between.  Types: all of one
+// rendez-vous table, or mixed (a tcp proxy and an stcp proxy under one name meet at the Add only).
+func (g *sessGenState) raceWorld() {
+	m := 2 + g.rng.Intn(3)
+	first := g.next + 1
+	for i := 0; i < m; i++ {
+		n := g.next + 1
+		g.next = n
+		x := &sessSim{phase: "running", rid: 1000 + n, old: -1, own: map[int]bool{}, todo: map[int]bool{}, ownTyp: map[int]string{}}
+		g.s[n] = x
+		g.byRun[x.rid] = n
+		g.op("login %d %d 1", n, 1000+n)
+		g.op("add %d", n)
+		g.op("start %d", n)
+	}
+	for round, rounds := 0, 1+g.rng.Intn(2); round < rounds; round++ {
+		g.forceName = 1 + g.rng.Intn(4)
+		switch g.rng.Intn(5) {
+		case 0:
+			g.forceTyps = []string{"stcp"}
+		case 1:
+			g.forceTyps = []string{"stcp", "sudp"}
+		case 2:
+			g.forceTyps = []string{"xtcp"}
+		case 3:
+			g.forceTyps = []string{"tcp", "stcp", "xtcp"}
+		default:
+			g.forceTyps = []string{"stcp", "stcp", "sudp", "xtcp", "tcp"}
+		}
+		for k := first; k < first+m; k++ {
+			pre := fmt.Sprintf("regexist %d ", k)
+			g.step(func(op string) bool { return strings.HasPrefix(op, pre) })
+		}
+		for i := 0; i < 40; i++ {
+			if !g.step(func(op string) bool {
+				return strings.HasPrefix(op, "regrun") || strings.HasPrefix(op, "regadd") || strings.HasPrefix(op, "regown") ||
+					strings.HasPrefix(op, "vprobe") || strings.HasPrefix(op, "nprobe") || strings.HasPrefix(op, "tprobe")
+			}) {
 				break
 			}
-			r -= c.w
+			busy := false
+			for k := first; k < first+m; k++ {
+				busy = busy || g.s[k].hp != ""
+			}
+			if !busy {
+				break
+			}
+		}
+		g.forceName, g.forceTyps = 0, nil
+		for _, pr := range g.probes(1 + g.rng.Intn(4)) {
+			g.op("%s", pr)
 		}
 	}
 }
@@ -1362,6 +1924,35 @@ var sessScripts = [][]string{
 		"waitold 2", "start 2", "freshburst 8 2", "del 1"},
 }
 
+// hand-written schedules about the resources behind a name and about names as clients send them
+func sessResScripts() [][]string {
+	return [][]string{
+		// two sessions pass the Exist check for one stcp/sudp name; the second Run is refused: the first one's listener
+		// stays and it is the first session that is asked for work connections; the same for xtcp; a close request
+		// for somebody else's name changes nothing
+		{"login 1 1001 1", "add 1", "start 1", "login 2 1002 1", "add 2", "start 2",
+			"regexist 1 4 stcp", "regexist 2 4 sudp", "regrun 1", "vprobe 4 1", "regrun 2", "vprobe 4 1", "regadd 1", "regown 1",
+			"vprobe 4 1", "regexist 2 4 stcp", "vprobe 4 1", "regexist 2 3 xtcp", "regexist 1 3 xtcp", "regrun 2", "nprobe 3",
+			"regrun 1", "nprobe 3", "regadd 2", "regown 2", "nprobe 3", "closereq 1 3", "nprobe 3", "closereq 2 4", "vprobe 4 1"},
+		// a tcp incumbent; a challenger with an stcp proxy of the same name passed Exist before: its Add is refused, the
+		// rollback removes ITS listener, the incumbent's port still accepts and the incumbent is asked
+		{"login 1 1001 1", "add 1", "start 1", "login 2 1002 1", "add 2", "start 2",
+			"regexist 1 2 tcp", "regexist 2 2 stcp", "regrun 1", "regadd 1", "regown 1", "tprobe 1 2", "regrun 2", "vprobe 2 2",
+			"regadd 2", "vprobe 2 0", "tprobe 1 2", "regexist 2 2 tcp", "tprobe 1 2"},
+		// names that differ only by blanks / case are different names; after the re-login no name, listener or nat hole
+		// entry of the old session is left and the new session registers all of them again
+		{"name 1 " + hx(" padded "), "name 2 " + hx("padded"), "name 3 " + hx("Padded\t"), "name 4 " + hx(""),
+			"login 1 1001 1", "add 1", "start 1", "regexist 1 1 tcp", "regrun 1", "regadd 1", "regown 1",
+			"regexist 1 2 stcp", "regrun 1", "regadd 1", "regown 1", "regexist 1 3 xtcp", "regrun 1", "regadd 1", "regown 1",
+			"regexist 1 4 sudp", "regrun 1", "regadd 1", "regown 1", "vprobe 2 1", "vprobe 4 1", "nprobe 3", "tprobe 1 1",
+			"closereq 1 2", "closefin 1", "vprobe 2 0", "login 2 1001 0", "add 2", "dispdone 1", "drain 1", "closeproxy 1",
+			"closeproxy 1", "closeproxy 1", "done 1", "waitold 2", "start 2", "vprobe 4 0", "nprobe 3",
+			"regexist 2 1 tcp", "regrun 2", "regadd 2", "regown 2", "regexist 2 2 stcp", "regrun 2", "regadd 2", "regown 2",
+			"regexist 2 3 xtcp", "regrun 2", "regadd 2", "regown 2", "regexist 2 4 sudp", "regrun 2", "regadd 2", "regown 2",
+			"del 1", "vprobe 4 2", "nprobe 3", "tprobe 2 1"},
+	}
+}
+
 // concurrency classes of the direct generator test: few/many goroutines (below and above the number of
 // processors), short/long runs; the small ones travel to the Lean driver id by id
 var sessRandClasses = [][2]int{{8, 2000}, {16, 2000}, {64, 500}, {64, 2000}, {4, 1000}, {16, 256}, {32, 128}, {128, 32}}
@@ -1370,7 +1961,7 @@ func sessGen(rng *rand.Rand, n int, emit func(string)) {
 	g := &sessGenState{rng: rng, emit: emit}
 	emit("randid")
 	g.n++
-	for _, sc := range sessScripts {
+	for _, sc := range append(append([][]string{}, sessScripts...), sessResScripts()...) {
 		g.reset()
 		for _, op := range sc {
 			g.op("%s", op)
@@ -1387,6 +1978,10 @@ func sessGen(rng *rand.Rand, n int, emit func(string)) {
 			g.op("randconc %d %d", c[0], c[1])
 		}
 		g.reset()
+		g.nameWorld()
+		if rng.Intn(3) == 0 {
+			g.raceWorld()
+		}
 		wild := 0
 		switch rng.Intn(4) {
 		case 0:
